@@ -31,7 +31,7 @@ def units(tier, seed):
     shapes = shapes_h1() + shapes_h2() + (shapes_h3_cover() if tier == "quick" else shapes_h3_all())
     for k, eng in enumerate(shapes):
         for mx in (False, True):
-            descs.append(dict(engines=list(eng), gens=1 + k % 2, maximize=mx, obj=("plateau", "twofunnel", "plateau")[k % 3], Mh=4, seed=s,
+            descs.append(dict(engines=list(eng), gens=1 + k % 2, maximize=mx, obj=("plateau", "twofunnel", "plateau")[k % 3], Mh=4, seed=s, look_mid_step=bool((k + mx) % 2),
                               sprout={"kind": ("simple", "nbc")[(k + mx) % 2], "L": 2}, hib=bool((k // 2) % 2),
                               lsc=[None] + [{"kind": "metaepoch", "m": 1 + k % 2}] * (len(eng) - 1)))
     us = [{"kind": "run", "descs": c} for c in chunks(descs, 12)]
@@ -52,7 +52,7 @@ def run_unit(unit):
 
 
 def finish(res, tier):
-    for f, n in (("report parsed", 500), ("marker checked", 300), ("marker checked at best==0.0", 20), (">=2 displayed demes", 300)):
+    for f, n in (("looked at the tree mid-step", 200), ("report parsed", 500), ("marker checked", 300), ("marker checked at best==0.0", 20), (">=2 displayed demes", 300)):
         if res.flags[f] < n:
             raise Vacuous(f"coverage flag '{f}' seen only {res.flags[f]} times")
     if res.configs_completed < res.configs:
